@@ -382,12 +382,19 @@ class Renderer:
         rest = d['rest']
         mm = re.match(r'\s*from\s+', rest)
         if not mm:
-            raise ExtractError('block needs from "<a>" to "<b>": %r' % rest)
-        a, rest = parse_quoted(rest[mm.end():])
-        m2 = re.match(r'\s*(?:#(\d+))?\s*to\s+', rest)
+            raise ExtractError('block needs from "<a>"|start to|until "<b>"|end: %r' % rest)
+        rest = rest[mm.end():]
+        from_start = False
+        if rest.startswith('start'):
+            from_start = True
+            a, rest = '', rest[len('start'):]
+        else:
+            a, rest = parse_quoted(rest)
+        m2 = re.match(r'\s*(?:#(\d+))?\s*(to|until)\s+', rest)
         if not m2:
-            raise ExtractError('block needs to "<b>": %r' % rest)
+            raise ExtractError('block needs to|until "<b>": %r' % rest)
         ka = int(m2.group(1)) if m2.group(1) else None
+        exclusive = m2.group(2) == 'until'
         to_end = rest[m2.end():].strip() == 'end'
         if not to_end:
             b, rest = parse_quoted(rest[m2.end():])
@@ -395,16 +402,19 @@ class Renderer:
             kb = int(m3.group(1)) if m3 and m3.group(1) else None
         s, f = self.locate_fn(rel, path)
         flo, fhi = f['sig_open'] + 1, f['body_close']
-        ha = s.find_anchor(a, flo, fhi, ka)
+        if from_start:
+            ha = [flo]
+        else:
+            ha = s.find_anchor(a, flo, fhi, ka)
         if len(ha) != 1:
             raise ExtractError('block %s: from-anchor %r matches %d times' % (path, a, len(ha)))
         if to_end:
             lo, hi = ha[0], fhi
         else:
-            hb = s.find_anchor(b, ha[0], fhi, kb)
+            hb = s.find_anchor(b, ha[0] + (0 if from_start else 1), fhi, kb)
             if len(hb) < 1 or (kb is None and len(hb) != 1):
                 raise ExtractError('block %s: to-anchor %r matches %d times after from-anchor' % (path, b, len(hb)))
-            lo, hi = ha[0], hb[0] + len(b)
+            lo, hi = ha[0], (hb[0] if exclusive else hb[0] + len(b))
         head = contract = tail = ''
         name = None
         for sd in d['subs']:
@@ -528,9 +538,19 @@ class Renderer:
                 d = {'kind': kind, 'line': i + 1, 'subs': []}
                 if kind == 'item':
                     d['args'] = toks[2:5]
+                elif kind == 'fn':
+                    # //@ fn <file> <Impl pattern (may contain spaces, e.g. `Default for Config`)>::<name> [optional]
+                    tail = st.split(None, 3)[3] if len(toks) > 3 else ''
+                    opt = tail.endswith(' optional')
+                    if opt:
+                        tail = tail[:-len(' optional')]
+                    d['args'] = [toks[2], tail.strip()]
+                    d['rest'] = 'optional' if opt else ''
                 else:
-                    d['args'] = toks[2:4]
-                    d['rest'] = st.split(None, 4)[4] if len(toks) > 4 else ''
+                    tail = st.split(None, 3)[3] if len(toks) > 3 else ''
+                    k = tail.find(' from ')
+                    d['args'] = [toks[2], (tail[:k] if k >= 0 else tail).strip()]
+                    d['rest'] = tail[k + 1:] if k >= 0 else ''
                 i += 1
                 cur = None
                 while True:
